@@ -105,6 +105,20 @@ func someNumber(r *rng) numSpec {
 	case 4:
 		return testNumber(r, r.intn(5), 1+r.intn(6), r.rangeInt(-5, 8), 0)
 	case 5:
+		if r.coin(25) { // a repeating block of zeros only: still an infinite Number
+			ns := testNumber(r, 1+r.intn(5), 0, r.rangeInt(-5, 8), 0)
+			parts := strings.Split(ns.desc, ":")
+			zeros := strings.TrimSuffix(strings.Repeat("0,", 1+r.intn(3)), ",")
+			fd := ns.digit
+			fl := ns.length
+			return numSpec{desc: parts[0] + ":" + parts[1] + ":" + zeros + ":" + parts[3], length: -1,
+				digit: func(p int) int {
+					if p < fl {
+						return fd(p)
+					}
+					return 0
+				}}
+		}
 		return testNumber(r, blockLengths[r.intn(len(blockLengths))], 0, r.rangeInt(-5, 8), 0)
 	case 6:
 		return numSpec{desc: fmt.Sprintf("S:%d:%d", 1+r.intn(50), 1+r.intn(9)), length: -2, allV: true}
